@@ -21,6 +21,10 @@ func (certificate *Certificate) Marshal() ([]byte, error) {
 }
 
 func (certificate *Certificate) Unmarshal(b []byte) error {
+	if len(b) == 0 {
+		return errors.Errorf("Certificate: The payload body is empty")
+	}
+
 	if len(b) > 0 {
 		// bounds checking
 		if len(b) <= 1 {
